@@ -372,8 +372,14 @@ def volumes_check(ctx, repo, pid="C02"):
         ctx.inconclusive("LAYOUT", f"{pid}.volumes.layout", "volume list not derived as a product loop", vw, witness=r_ or vstr(vol)[:300])
     bcalls = [c for c in hooks.geo_calls if c[0] == "B" and c[1].endswith("get_voronoi_volumes")]
     ctx.instance("FLOW")
-    ctx.check(len(bcalls) >= 1, "FLOW", f"{pid}.volumes.rotsource", "rotation-cell volumes come from the rotation grid's Voronoi model", vw,
-              witness=str([c[1] for c in hooks.geo_calls]))
+    if len(bcalls) >= 1:
+        ctx.ok("FLOW", f"{pid}.volumes.rotsource", "rotation-cell volumes come from the rotation grid's Voronoi model", vw)
+    elif hooks.geo_calls and not contains_top(vol):
+        ctx.violate("FLOW", f"{pid}.volumes.rotsource", "rotation-cell volumes do not come from the rotation grid's Voronoi model", vw,
+                    witness=str([c[1] for c in hooks.geo_calls]))
+    else:
+        ctx.inconclusive("FLOW", f"{pid}.volumes.rotsource", "source of the rotation-cell volumes not derived", vw,
+                         witness=str([c[1] for c in hooks.geo_calls]))
 
 
 def run(ctx, repo, tier):
